@@ -50,3 +50,24 @@ Example C14_example :
   /\ (let ops := [IAlloc 1 (VInt 1); IFree 1; IAlloc 1 (VInt 2); ICall 1; IAlloc 2 (VInt 3); ICall 2; ICall 1] in
       wf_ops [] ops = true /\ pinned [] ops = true).
 Proof. split; [intros f ->; vm_compute; reflexivity|vm_compute; split; reflexivity]. Qed.
+
+(* 5. The table that deduplicates PEP 585 / PEP 604 hints by their representation (F51, repaired): whatever was asked before,
+      the hint used means what the hint asked about means; equal hints are still shared; without the equality test a hint over
+      a second class of the same name is answered with the first class. *)
+From BT Require Import C14.Dedup C14.DedupProofs.
+Theorem C14_dedup_invisible : forall hs t, map h_meaning (run dedup_checked t hs) = map h_meaning hs.
+Proof. exact dedup_invisible. Qed.
+Print Assumptions C14_dedup_invisible.
+
+Theorem C14_dedup_shares : forall t a b,
+  tget (h_repr a) t = None -> h_repr b = h_repr a -> heq a b = true -> run dedup_checked t [a; b] = [a; a].
+Proof. exact dedup_shares. Qed.
+Print Assumptions C14_dedup_shares.
+
+Theorem C14_dedup_unchecked_refuted :
+  let k1 := {| h_id := 1; h_repr := 7; h_meaning := 100 |} in
+  let k2 := {| h_id := 2; h_repr := 7; h_meaning := 200 |} in
+  map h_meaning (run dedup_unchecked [] [k1; k2]) = [100; 100] /\
+  map h_meaning (run dedup_checked [] [k1; k2]) = [100; 200].
+Proof. exact unchecked_refuted. Qed.
+Print Assumptions C14_dedup_unchecked_refuted.
